@@ -86,10 +86,32 @@ namespace bloch::compiler {
                m_tokens[idx + 2].type == TokenType::Identifier) {
             idx += 2;
         }
-        // Skip generic type arguments if present: < ... >
+        // Skip generic type arguments if present: < ... >. Only tokens that can occur inside a
+        // type-argument list are skipped; anything else means the '<' is a comparison.
+        auto isTypeArgToken = [](TokenType t) {
+            switch (t) {
+                case TokenType::Identifier:
+                case TokenType::Dot:
+                case TokenType::Comma:
+                case TokenType::LBracket:
+                case TokenType::RBracket:
+                case TokenType::IntegerLiteral:
+                case TokenType::Int:
+                case TokenType::Long:
+                case TokenType::Float:
+                case TokenType::Char:
+                case TokenType::String:
+                case TokenType::Bit:
+                case TokenType::Qubit:
+                case TokenType::Boolean:
+                    return true;
+                default:
+                    return false;
+            }
+        };
         auto skipTypeArgs = [&](size_t& i) {
             if (i + 1 >= m_tokens.size() || m_tokens[i + 1].type != TokenType::Less)
-                return;
+                return true;
             int depth = 0;
             size_t j = i + 1;
             while (j < m_tokens.size()) {
@@ -99,13 +121,17 @@ namespace bloch::compiler {
                     depth--;
                     if (depth == 0) {
                         i = j;
-                        break;
+                        return true;
                     }
+                } else if (!isTypeArgToken(m_tokens[j].type)) {
+                    return false;
                 }
                 j++;
             }
+            return false;
         };
-        skipTypeArgs(idx);
+        if (!skipTypeArgs(idx))
+            return false;
         if (idx + 1 >= m_tokens.size())
             return false;
         TokenType afterName = m_tokens[idx + 1].type;
